@@ -7,7 +7,8 @@ import pktcommon as PK
 
 PROP = 'C08'
 TITLE = 'TLV models encode to exact, minimal TLV and decode back to equal values'
-LEAN_TARGETS = ['NdnProofs.Props.C08', 'NdnGen.C08', 'NdnProofs.Props.TlvVarGen', 'NdnGen.TlvVar']
+LEAN_TARGETS = ['NdnProofs.Props.C08', 'NdnGen.C08', 'NdnProofs.Props.TlvVarGen', 'NdnGen.TlvVar',
+                'NdnProofs.Props.TlvModelGen', 'NdnProofs.Props.TlvModelParseGen', 'NdnGen.TlvModelFields']
 THEOREMS = [
     'Ndn.C08.announced_length_exact', 'Ndn.C08.enc_wellformed', 'Ndn.C08.writeTlNum_shortest',
     'Ndn.C08.uint_smallest_width', 'Ndn.C08.parse_enc_roundtrip',
@@ -24,6 +25,16 @@ THEOREMS = [
     'Ndn.TlvVarGen.all_translated', 'Ndn.TlvVarGen.get_tl_num_size_eq', 'Ndn.TlvVarGen.write_tl_num_eq',
     'Ndn.TlvVarGen.write_tl_num_neg', 'Ndn.TlvVarGen.pack_uint_bytes_eq', 'Ndn.TlvVarGen.parse_tl_num_eq',
     'Ndn.TlvVarGen.parse_and_check_tl_eq', 'Ndn.TlvVarGen.shrink_length_eq',
+    # the methods of the leaf field classes of tlv_model.py (UintField, BoolField, BytesField on bytes and on text)
+    # TRANSLATED from their source text on every run (harness/py2lean.py -> NdnGen/TlvModelFields.lean) = the clauses
+    # of the generic codec (Codec.encLen / enc / leafCheck + parseValue), for all inputs
+    'Ndn.TlvModelGen.all_translated', 'Ndn.TlvModelGen.uint_encoded_length_eq', 'Ndn.TlvModelGen.uint_encoded_length_none',
+    'Ndn.TlvModelGen.uint_encoded_length_neg', 'Ndn.TlvModelGen.uint_encode_into_eq', 'Ndn.TlvModelGen.uint_encode_into_none',
+    'Ndn.TlvModelGen.uint_two_pass', 'Ndn.TlvModelGen.bool_encoded_length_eq', 'Ndn.TlvModelGen.bool_encode_into_eq',
+    'Ndn.TlvModelGen.bool_encode_into_absent', 'Ndn.TlvModelGen.bytes_encoded_length_eq', 'Ndn.TlvModelGen.str_encoded_length_eq',
+    'Ndn.TlvModelGen.bytes_encode_into_eq', 'Ndn.TlvModelGen.str_encode_into_eq', 'Ndn.TlvModelGen.bytes_encode_into_none',
+    'Ndn.TlvModelGen.parse_translated', 'Ndn.TlvModelGen.uint_parse_from_eq', 'Ndn.TlvModelGen.bool_parse_from_eq',
+    'Ndn.TlvModelGen.bytes_parse_from_eq', 'Ndn.TlvModelGen.str_parse_from_eq',
 ]
 PARTIAL = {}
 TRUSTED = [
@@ -40,6 +51,14 @@ TRUSTED = [
     'limit on offsets, indexing and slicing with negative indices, memoryview(x) / bytes(x) as the identity on the '
     'contents, a buffer written through pack_into threaded as a value); arguments are the annotated types (int, '
     'bytes-like with one-byte items, writable where written)',
+    'C08 (tlv_model.py field classes): encoded_length / encode_into / parse_from of UintField, BoolField and BytesField are '
+    'translated the same way, as functions of the attributes of self they read and of their parameters, under the value '
+    'types the classes document (None or int / bool / byte string / str; val_base_type and __get__ / __set__ are not '
+    'involved in these methods); trusted in addition: the markers dict as the association list of its int entries, '
+    'str.encode / bytes.decode("utf-8") as the identity on valid UTF-8 (Ndn.utf8Valid, checked against CPython by the '
+    'correspondence stream), a slice assignment into the wire only where slice and value have the same size, 0x100 ** n '
+    'for n >= 0. NameField, ModelField, RepeatedField, MapField and TlvModel.encode / parse themselves (loops, dynamic '
+    'dispatch) are outside the translated subset and stay tied by differential execution only',
 ]
 RULE = ('(a) randomly generated TlvModel classes (random field kinds incl. nested models, repeated, map, markers; type '
         'numbers 1..2^32-1) with random values at width/length boundaries and non-ASCII text; (b) every plain model class '
@@ -77,7 +96,9 @@ LEVEL_TEXT = ('Lean 4 theorems about a generic interpreter of TLV model schemas 
               'tied to tlv_model.py on every run by differential execution on generated and shipped model classes; the '
               'TL-number helpers of tlv_var.py (get_tl_num_size, write_tl_num, pack_uint_bytes, parse_tl_num, '
               'parse_and_check_tl, shrink_length) are tied by translation: their source text is translated to Lean on '
-              'every run and proved equal, for all inputs, to the model functions the theorems use.')
+              'every run and proved equal, for all inputs, to the model functions the theorems use; likewise the '
+              'encoded_length / encode_into / parse_from methods of UintField, BoolField and BytesField are translated on every '
+              'run and proved equal to the leaf clauses of the interpreter (encLen, enc, leafCheck + parseValue).')
 LEVEL_NOTE = ('Theorems are about the Lean interpreter; interpreter = tlv_model.py is sampled. Marker pseudo-fields (no value) '
               'are outside wfTop; their offsets are covered by C01/C02. struct/memoryview semantics are CPython.')
 TECHNIQUE = 'Lean 4 proof (structural induction over schema trees and field lists) + model/implementation correspondence check'
